@@ -16,7 +16,7 @@ PROPERTY = "C16"
 
 META = {
     "bounds": {
-        "quick": "16 template programs (one of realistic size: macros applying macros, named scope, three `*=` blocks, relocated part) + the 2 repository samples; one layout change at a time at every applicable position: indentation (1-2 chars of {space,tab}), trailing spaces (1-2), spaces next to operators/commas/brackets, blank lines, full-line and end-of-line ; comments and /* */ comments with 2 symbolic body characters, per-letter case of every mnemonic / suffix / index register / hex literal; every contiguous balanced statement run of <= 5 lines (whole macro definitions / scopes included) moved into an .include file; data values symbolic",
+        "quick": "16 template programs (one of realistic size: macros applying macros, named scope, three `*=` blocks, relocated part) + the 2 repository samples; one layout change at a time at every applicable position: indentation (1-2 chars of {space,tab}), trailing spaces (1-2), spaces next to operators/commas/brackets, blank lines, full-line and end-of-line ; comments and /* */ comments with 0, 1 and 2 symbolic body characters, per-letter case of every mnemonic / suffix / index register / hex literal; every contiguous balanced statement run of <= 5 lines (whole macro definitions / scopes included) moved into an .include file; data values symbolic",
         "thorough": "same with 3 symbolic comment characters, pairs of simultaneous changes (VERIF_SEED-drawn 300 pairs), include runs of <= 8 lines",
     },
     "outside": ["compositions of more than two changes", "layout changes not listed in the property (tabs before operands, spaces before ':' ...)", "comment bodies longer than 3 characters"],
@@ -126,7 +126,7 @@ def jobs(tier, seed):
         atoms, sites = analyse(text)
         assert "".join(atoms) == text, (text, atoms)
         for si, site in enumerate(sites):
-            variants = {"between": ["blank", "linecomment", "blockcomment", "blockcomment-inline"], "indent": ["1", "2"], "trailing": ["1", "2"], "space": ["1"], "case": ["letters"], "eolcomment": ["c"]}[site[0]]
+            variants = {"between": ["blank", "linecomment", "blockcomment", "blockcomment-inline", "blockcomment-empty", "blockcomment-short", "linecomment-empty"], "indent": ["1", "2"], "trailing": ["1", "2"], "space": ["1"], "case": ["letters"], "eolcomment": ["c"]}[site[0]]
             for v in variants:
                 out.append({"id": f"t{ti:02d}/{site[0]}{si:03d}/{v}", "fam": "slot", "tpl": ti, "sites": [[si, v]], "nc": 2 if tier == "quick" else 3})
         nlines = text.count("\n")
@@ -174,11 +174,16 @@ def _slot_chars(cx, tag, kind, variant, ncomment):
         return [cx.char(f"{tag}_0", [0x20, 0x09, 0x0A]), cx.char(f"{tag}_1", [0x0A])]
     if variant == "linecomment":
         return [ord(";")] + [cx.char(f"{tag}_{k}", NONL) for k in range(ncomment)] + [0x0A]
+    if variant == "linecomment-empty":
+        return [ord(";"), 0x0A]
+    if variant in ("blockcomment-empty", "blockcomment-short"):
+        # comments of 0 and 1 body characters (the 1-character body may be '*' or '/': `/***/`, `/*/*/`)
+        ncomment = 0 if variant == "blockcomment-empty" else 1
     body = [cx.char(f"{tag}_{k}") for k in range(ncomment)]
     # the body must not contain the terminator "*/"
     for x, y in zip(body, body[1:]):
         cx.assume(z3.Not(z3.And(_t(x) == ord("*"), _t(y) == ord("/"))))
-    tail = [0x0A] if variant == "blockcomment" else [0x20]
+    tail = [0x20] if variant == "blockcomment-inline" else [0x0A]
     return [ord("/"), ord("*")] + body + [ord("*"), ord("/")] + tail
 
 
